@@ -531,7 +531,7 @@ async def run_plan(net, hyg, plan):
         if local_fs:
             fs_populate(lroot, spec)
         else:
-            memory_populate(c.path_io.fs, {"/local" + k: v for k, v in spec.items()})
+            memory_populate(c.path_io.fs, {"/local" + k: v for k, v in spec.items()}, reverse=bool(plan.get("local_reverse")))
         op = plan["op"]
         where = (f"{op} tree={sorted(plan['tree'])} file={src_is_file} destination={plan['destination']!r} write_into={plan['write_into']} "
                  f"cwd={cwd} fallback={plan['fallback']}")
@@ -691,6 +691,10 @@ def run_case(case):
 def gen_cases(tier, seed):
     rng = random.Random(seed * 613 + 9)
     small = all_small_trees()
+    # siblings whose names differ by a suffix a server or client might use for temporary files, uploaded in either order
+    for pair in (("data.bin", "data.bin.part"), ("n", "n.part"), ("x.tmp", "x"), ("f", "f~"), ("r.bin.part", "r.bin"), ("q", ".q.swp")):
+        small.append({pair[0]: b"first-" + pair[0].encode(), pair[1]: b"second-" + pair[1].encode()})
+        small.append({"d": DIR, "d/" + pair[1]: b"inner-" + pair[1].encode(), "d/" + pair[0]: b"inner-" + pair[0].encode()})
     plans = []
     dests = ["", "d", "d/e", "/abs/x", "w2", "/w/v/deep/er"]
     n = 260 if tier == "quick" else 25000
@@ -720,6 +724,15 @@ def gen_cases(tier, seed):
         if src_is_file:
             plan["tree"] = None
         plans.append(plan)
+    # the suffix-sibling trees, each uploaded (both merge modes) and downloaded once for certain
+    for t_i, tree in enumerate(small[-12:]):
+        tr = {k: (DIR if v == DIR else v.hex()) for k, v in tree.items()}
+        for op in ("upload", "download"):
+            for merge in (False, True):
+                plans.append({"seed": seed * 7 + 100000 + t_i, "tree": tr, "src_is_file": False, "src_name": "src", "destination": "d" if t_i % 2 else "",
+                              "write_into": bool(t_i % 2), "cwd": "/w", "fallback": bool(t_i % 3 == 0), "dest_exists": merge, "op": op,
+                              "block": 8192, "server_block": 8192, "ldest": "ld", "lwrite_into": False, "merge": merge,
+                              "remove_cwd": "outside", "lstale": False, "local": "memory", "local_reverse": bool(t_i % 4 < 2) != merge})
     # file payload for file sources is carried separately (JSON): use a deterministic one
     for p in plans:
         if p["src_is_file"]:
